@@ -11,6 +11,8 @@ def run(ctx):
                        "FifoTrace", "Trace.cfg", "syncringseq", ["ringz"],
                        rand_n=300 if quick else 5000, rand_len=96 if quick else 200,
                        trace_every=1 if quick else 5)
+    # capacity rounding over the whole range of requested capacities (around every power of two up to 2^20)
+    vlib.case_component(ctx, "SyncRingCap", "SyncRingSeq", "CapCases", ["MC_cap.cfg"], "c10cap")
     if not quick:
         # the 32-bit wrap reached honestly through the public API (> 2^32 Push/Pop pairs, twice)
         binp = os.path.join(ctx.bin, "syncringseq")
